@@ -8,6 +8,7 @@ from engine.model import src, stmt_key, walk_no_nested, dotted
 from engine.util import attr_accesses, with_exprs, calls_with_nodes, where, own_nodes
 
 RULES = {
+    "R-12.6": "a B-tree zone writer starts from the newest committed version (C20 R-20.2 newest-base adopted): otherwise the final zone is not the serial application of the commits in admission order",
     "R-12.1": "guarded-by: _versions/_readers/_write_txn/_write_waiters/_write_event/_pruning_policy are touched only under _version_lock, in *_unlocked methods, or in __init__; *_unlocked methods are called only from such places",
     "R-12.2": "nothing that can block (Event.wait, sleep, deferred version setup) runs while _version_lock is held",
     "R-12.3": "every write end clears _write_txn and reaches the wake-up; admission is `_write_txn is None and event == _write_event`; waiters are a FIFO (append/popleft only)",
@@ -237,6 +238,7 @@ def run(model, rep, tier):
               "a path through _end_transaction ends without _end_read/_commit_version/_end_write", stmt="ends-at-zone")
     rep.assume("threading.Lock / threading.Event semantics; CPython deque operations are atomic")
     rep.assume("R-12.5 covers writer(); an exception raised by the immutable-version factory inside _end_transaction (before _commit_version) is not covered")
+    rep.share(model, "C20", {"R-20.2"}, "R-12.6", "the version a writer edits is set up after admission from the version list", only=lambda o: o.stmt in ("newest-base", "same-base"))
     rep.meta["explanation"] = (
         "Guarded-by analysis over the whole package for the six admission/retention fields of dns.versioned.Zone, call-site check of the "
         "*_unlocked convention, transitive no-blocking-under-lock check, and CFG (post-)dominance rules for admission test, wake-up "
